@@ -3,7 +3,7 @@ import queue as _queue
 import sys
 import traceback
 
-from vf.report import HarnessError
+from vf.report import HarnessError, Livelock
 from vf.vworld import base
 from vf.vworld import clock as vclock
 from vf.vworld import vthreads
@@ -153,7 +153,7 @@ class SyncWorld:
         self.nstep += 1
         self.sched.run_thread(vt)
 
-    def run(self, cap=200000):
+    def run(self, cap=6000):
         vclock.set_current(self.clock)
         n = 0
         while True:
@@ -164,7 +164,7 @@ class SyncWorld:
             self.sched.run_thread(en[0])
             n += 1
             if n > cap:
-                raise HarnessError('sync world does not quiesce')
+                raise Livelock('threaded world does not quiesce within %d steps' % cap)
 
     def next_deadline(self):
         return self.sched.next_deadline()
